@@ -56,3 +56,47 @@ Proof.
     rewrite (wc_rs _ _ (wi_cc f WF)) in Hregs. exact Hregs. }
   rewrite !Hchk. reflexivity.
 Qed.
+
+(* ------------------------------------------------------------------ AArch64 analogue *)
+From Verif Require Import Frame.FrameA64Proofs.
+
+Theorem exec_frame_ok_a64 f : wf_in f -> fi_arch f = A64 ->
+  (qget (cc_srsize (fi_cc f)) 1 = 8 \/ fin_saved f 1 = 0) -> fin_has_da f = false -> (fi_sa_reg f = id_bad \/ fi_sa_fix f = true) -> fo_stack_adj (finalize f) <= 16777215 ->
+  forall sp0 ra, sp0 mod 16 = 0 -> 0 <= ra < 2 ^ 64 ->
+  fst (exec_frame A64 (fst (prolog f (finalize f))) (fst (epilog f (finalize f))) sp0 ra (fo_dirty (finalize f))
+                  (cc_preserved (fi_cc f)) (cc_srsize (fi_cc f)) (fi_has_fp f) (fi_call_size f) (fo_local_off (finalize f))
+                  (fi_local_size f) 0) = 0.
+Proof.
+  intros WF HA HV HNDA HSA HADJ sp0 ra Hal Hra.
+  unfold exec_frame. set (s0 := init_state A64 sp0 ra).
+  assert (Hs0sp : st_reg s0 0 31 = sp0) by reflexivity.
+  assert (Hs0lr : st_reg s0 0 30 = ra) by reflexivity.
+  assert (Hs0ret : st_ret s0 = None) by reflexivity.
+  pose proof (a64_roundtrip_sec f WF HA HV HNDA HSA HADJ s0) as RT. cbv zeta in RT. rewrite Hs0sp, Hs0lr in RT.
+  destruct (RT Hs0ret Hal Hra) as [s1 [Hrun [_ [Hsp1 [Hret1 [_ [_ [_ [_ Hbody]]]]]]]]].
+  rewrite Hrun. cbn [sp_id].
+  set (s2 := poison_body _ _ _ _ _ _ _).
+  assert (BO : a64_body_ok f s0 s1 s2).
+  { constructor.
+    - exact Hret1.
+    - unfold s2, poison_body. cbn [st_reg sp_id fp_id]. cbn [Z.eqb Pos.eqb andb orb negb]. rewrite andb_false_r. reflexivity.
+    - intros Hfp. unfold s2, poison_body. cbn [st_reg sp_id fp_id]. rewrite Hfp. cbn [Z.eqb Pos.eqb andb orb negb]. rewrite andb_false_r. reflexivity.
+    - intros g r Hd. unfold s2, poison_body. cbn [st_reg]. rewrite Hd. reflexivity.
+    - intros x Hx. unfold s2, poison_body. cbn [st_mem sp_id]. rewrite Hsp1.
+      unfold a64_may_write in Hx. cbv zeta in Hx. rewrite Hs0sp in Hx.
+      destruct (Z.ltb_spec x (a64_sp_body f sp0)); [exfalso; apply Hx; auto|].
+      destruct (Z.leb_spec (a64_sp_body f sp0) x); [|lia].
+      destruct (Z.ltb_spec x (a64_sp_body f sp0 + fi_call_size f)); [exfalso; apply Hx; right; left; lia|].
+      destruct (Z.leb_spec (a64_sp_body f sp0 + fo_local_off (finalize f)) x);
+        destruct (Z.ltb_spec x (a64_sp_body f sp0 + fo_local_off (finalize f) + fi_local_size f)); cbn [andb orb]; auto.
+      exfalso. apply Hx. right; right; left. lia. }
+  destruct (Hbody s2 BO) as [s3 [Hrun3 [_ [Hret3 [Hsp3 Hregs]]]]].
+  rewrite Hrun3, Hret3. rewrite Z.eqb_refl. cbn [negb]. rewrite Hsp3. unfold ret_addr_size. cbn [has_link_reg].
+  replace (sp0 + 0 + 0) with sp0 by lia. rewrite Z.eqb_refl. cbn [negb].
+  assert (Hchk : forall g, first_bad g (filter (fun r => negb ((g =? 0) && (r =? 31))) (bits_of 32 (qget (cc_preserved (fi_cc f)) g)))
+                           (if g =? 0 then reg_size A64 else qget (cc_srsize (fi_cc f)) g) s0 s3 = None).
+  { intros g. apply first_bad_none. intros r Hin. apply filter_In in Hin. destruct Hin as [Hin _]. apply bits_of_In in Hin. destruct Hin as [_ Hb].
+    specialize (Hregs g r Hb). destruct (Z.eqb_spec g 0) as [->|]; auto.
+    pose proof (wc_rs _ _ (wi_cc f WF)) as E. rewrite HA in E. rewrite E in Hregs. exact Hregs. }
+  rewrite !Hchk. reflexivity.
+Qed.
